@@ -918,6 +918,12 @@ def run_e2e_shard(prop, spec):
     elif case == "c17":
         v, nt, inc = run(c17_case, backend, spec.get("workers", 2), seed, counters)
         main = "e2e_collector_judgements"
+    elif case == "c13":
+        v, nt, inc = run(c13_case, backend, spec.get("workers", 2), seed, counters, cycles=spec.get("cycles", 120))
+        main = "e2e_close_cycles"
+    elif case == "crossworker":
+        v, nt, inc = run(crossworker_case, backend, spec.get("workers", 2), seed, counters)
+        main = "e2e_crossworker_resubmissions"
     elif case == "c16":
         v, nt, inc = run(c16_case, backend, spec.get("workers", 2), seed, counters)
         main = "e2e_allow_list_decisions"
@@ -1273,6 +1279,216 @@ async def c17_case(backend, workers, seed, counters):
             bump(counters, "e2e_restart_survivors_checked")
             if ev["id"] not in got:
                 V("removed-by-restart/%s" % label, "%s event (not collectable) is gone after an orderly shutdown and restart" % label)
+    finally:
+        for c in conns:
+            await c.close()
+        srv.stop()
+    return viols, nontrivial, inconcl
+
+
+# ---------------------------------------------------------------------------------------------------
+# C13: CLOSE / replacement end delivery also for events that come from another worker, and on a
+# connection the relay is slowing down
+# ---------------------------------------------------------------------------------------------------
+async def c13_case(backend, workers, seed, counters, cycles=120):
+    r = random.Random(seed)
+    viols, nontrivial, inconcl = [], [], []
+    srv = e2e.Server(backend=backend, workers=workers, overrides={"subscription_limit": 64})
+    rp = {"mode": "e2e", "e2e": "c13", "backend": backend, "workers": workers, "seed": seed}
+    key = ref.key_from_seed("e2e-c13")
+    conns = []
+
+    def V(key_, msg):
+        viols.append({"key": "e2e/%s/%s" % (backend, key_), "msg": "[e2e %s, %d worker process(es)] %s" % (backend, workers, msg), "replay": rp})
+
+    def late_events(c, sid, marker_pred):
+        """EVENT frames for `sid` that arrive AFTER the frame proving that the command following CLOSE/replacement was
+        processed (one connection's commands are handled in order)"""
+        seen_marker = False
+        late = []
+        for n, m in c.parsed():
+            if not isinstance(m, list):
+                continue
+            if not seen_marker and marker_pred(m):
+                seen_marker = True
+            elif seen_marker and m[:2] == ["EVENT", sid]:
+                late.append(m)
+        return seen_marker, late
+
+    try:
+        srv.start()
+        peers = await spread(srv, "c", 1, 24)
+        conns.extend(peers)
+        byw = {}
+        for c in peers:
+            byw.setdefault(c.worker, c)
+        listener = peers[0]
+        others = [c for w, c in byw.items() if w != listener.worker]
+        if workers > 1 and not others:
+            inconcl.append("e2e c13: all connections landed on one worker process")
+            return viols, nontrivial, inconcl
+        publisher = others[0] if others else peers[-1]
+        await asyncio.sleep(3.0)
+        # ---- (1) a stream of events accepted by ANOTHER worker while the listener opens and closes subscriptions
+        stop = asyncio.Event()
+        npub = [0]
+
+        async def stream():
+            while not stop.is_set():
+                npub[0] += 1
+                ev = ref.make_event(key, kind=1, created_at=T0 + npub[0], tags=[["t", "flow"]], content="c13 e2e %d %d" % (seed, npub[0]))
+                await publisher.send(["EVENT", ev])
+                await asyncio.sleep(0.004)
+
+        st = asyncio.create_task(stream())
+        try:
+            for i in range(cycles):
+                sid = "s%d" % i
+                await listener.send(["REQ", sid, {"kinds": [1], "#t": ["flow"], "limit": 3}])
+                await asyncio.sleep(r.choice([0.0, 0.005, 0.02, 0.05]))
+                if i % 3 == 2:
+                    # replacement by a filter that matches nothing of the stream, then the marker
+                    await listener.send(["REQ", sid, {"kinds": [7], "#t": ["nothing"]}])
+                else:
+                    await listener.send(["CLOSE", sid])
+                # the marker: its EOSE proves that everything sent before it was processed (one connection's commands are handled in order)
+                await listener.send(["REQ", "m%d" % i, {"kinds": [9999], "limit": 0}])
+                if i >= 24:
+                    await listener.send(["CLOSE", "m%d" % (i - 24)])  # long answered by now
+                if i % 3 == 2:
+                    await listener.send(["CLOSE", sid])
+                await asyncio.sleep(r.choice([0.0, 0.01, 0.03]))
+        finally:
+            stop.set()
+            await st
+        await e2e.settle(conns, quiet=1.0, timeout=60)
+        # attribute: frames are in arrival order; the i-th NOTICE closes cycle i
+        frames = [m for _, m in listener.parsed() if isinstance(m, list)]
+        notices = 0
+        closed_ids = set()
+        live_total = 0
+        for m in frames:
+            if m[:1] == ["EOSE"] and str(m[1]).startswith("m"):
+                closed_ids.add("s" + m[1][1:])
+                notices += 1
+            elif m[:1] == ["EVENT"]:
+                live_total += 1
+                if m[1] in closed_ids:
+                    bump(counters, "e2e_late_frames")
+                    V("event-after-%s/from-another-worker" % ("replaced" if int(m[1][1:]) % 3 == 2 else "closed"),
+                      "an EVENT frame for subscription %s arrived after the EOSE of the marker REQ that proves its %s had been processed (events were being accepted by worker %s, the listener is on worker %s)"
+                      % (m[1], "replacement" if int(m[1][1:]) % 3 == 2 else "CLOSE", publisher.worker, listener.worker))
+                    break
+        bump(counters, "e2e_close_cycles", notices)
+        bump(counters, "e2e_frames_during_cycles", live_total)
+        bump(counters, "e2e_events_streamed", npub[0])
+        nontrivial.append(h(["e2e-c13", backend, workers, "cycles", live_total > 0]))
+        if notices < cycles * 0.8:
+            # (a marker closed before its own query got its turn owes no EOSE: those cycles are simply not judged)
+            inconcl.append("e2e c13: %d of %d marker EOSEs seen" % (notices, cycles))
+        # ---- (2) a connection the relay slows down (real 2 s sleeps after a refused EVENT): CLOSE still ends delivery
+        t = await e2e.Client(srv, "throttled").connect()
+        conns.append(t)
+        bad = ref.make_event(key, kind=1, created_at=T0, tags=[], content="bad sig")
+        bad["sig"] = bad["sig"][:-2] + ("00" if bad["sig"][-2:] != "00" else "11")
+        n0 = await t.send(["EVENT", bad])
+        await t.wait_for(lambda fr: [m for m in fr if isinstance(m, list) and m[:1] == ["OK"]], timeout=30, since=n0)
+        await t.send(["REQ", "slow", {"kinds": [1], "#t": ["flow"], "limit": 5}])
+        await asyncio.sleep(0.7)
+        await t.send(["CLOSE", "slow"])
+        await t.send(["REQ", "mark", {"kinds": [9999], "limit": 0}])
+        await t.wait_for(lambda fr: [m for m in fr if isinstance(m, list) and m[:2] == ["EOSE", "mark"]], timeout=30)
+        await asyncio.sleep(6.0)
+        seen, late = late_events(t, "slow", lambda m: m[:2] == ["EOSE", "mark"])
+        bump(counters, "e2e_throttled_close_checks")
+        nontrivial.append(h(["e2e-c13", backend, "throttled"]))
+        if not seen:
+            inconcl.append("e2e c13: the throttled connection got no EOSE for the marker REQ")
+        elif late:
+            V("event-after-closed/throttled-connection", "on a connection the relay was slowing down, %d EVENT frame(s) for a closed subscription arrived after the marker's EOSE proving the CLOSE had been processed" % len(late))
+    finally:
+        for c in conns:
+            await c.close()
+        srv.stop()
+    return viols, nontrivial, inconcl
+
+
+# ---------------------------------------------------------------------------------------------------
+# C06: what one worker removed is not "a duplicate" for another worker
+# ---------------------------------------------------------------------------------------------------
+async def crossworker_case(backend, workers, seed, counters):
+    r = random.Random(seed)
+    viols, nontrivial, inconcl = [], [], []
+    srv = e2e.Server(backend=backend, workers=workers, overrides={"garbage_collector": {"collect_interval": 2}})
+    rp = {"mode": "e2e", "e2e": "crossworker", "backend": backend, "workers": workers, "seed": seed}
+    key = ref.key_from_seed("e2e-c06x")
+    conns = []
+
+    def V(key_, msg):
+        viols.append({"key": "e2e/%s/%s" % (backend, key_), "msg": "[e2e %s, %d worker processes] %s" % (backend, workers, msg), "replay": rp})
+
+    async def submit(c, ev):
+        n0 = await c.send(["EVENT", ev])
+        fr = await c.wait_for(lambda fr: [m for m in fr if isinstance(m, list) and m[:1] == ["OK"]], timeout=30, since=n0)
+        return fr[-1] if fr else None
+
+    async def stored(c, eid):
+        sid = "q%d" % Seq_n()
+        n0 = await c.send(["REQ", sid, {"ids": [eid]}])
+        await c.wait_for(lambda fr: any(isinstance(m, list) and m[:2] == ["EOSE", sid] for m in fr), timeout=30, since=n0)
+        return any(True for _ in event_frames(c, sid))
+
+    seqn = [0]
+
+    def Seq_n():
+        seqn[0] += 1
+        return seqn[0]
+
+    try:
+        srv.start()
+        peers = await spread(srv, "c", 1, 24)
+        conns.extend(peers)
+        byw = {}
+        for c in peers:
+            byw.setdefault(c.worker, c)
+        if len(byw) < 2:
+            inconcl.append("e2e crossworker: all connections landed on one worker process")
+            return viols, nontrivial, inconcl
+        (w1, c1), (w2, c2) = list(byw.items())[:2]
+        now = int(time.time())
+        scen = []
+        # stored through W1, removed through W2 (author's deletion / a newer version), offered to W1 again
+        x = ref.make_event(key, kind=1, created_at=now - 100, tags=[["t", "x"]], content="crossworker deleted %d" % seed)
+        scen.append(("deleted-through-another-worker", x, ref.make_event(key, kind=5, created_at=now - 50, tags=[["e", x["id"]]], content="del")))
+        y = ref.make_event(key, kind=10002, created_at=now - 100, tags=[["r", "wss://a"]], content="crossworker superseded %d" % seed)
+        scen.append(("superseded-through-another-worker", y, ref.make_event(key, kind=10002, created_at=now - 50, tags=[["r", "wss://b"]], content="newer")))
+        for label, first, remover in scen:
+            a = await submit(c1, first)
+            b = await submit(c2, remover)
+            await asyncio.sleep(0.5)
+            if not (a and a[2] is True and b and b[2] is True):
+                inconcl.append("e2e crossworker: set-up submissions of %s were not accepted (%r, %r)" % (label, a, b))
+                continue
+            gone = not await stored(c1, first["id"])
+            again = await submit(c1, first)
+            await asyncio.sleep(0.5)
+            back = await stored(c2, first["id"])
+            bump(counters, "e2e_crossworker_resubmissions")
+            nontrivial.append(h(["e2e-crossworker", backend, label]))
+            if label.startswith("deleted") and gone:
+                # a deleted event may be offered again (the relay keeps no tombstones): it is either stored again or refused
+                # with a reason - but never "a duplicate" of something that is in no store
+                if again and again[2] is False and str(again[3]).startswith("duplicate") and not back:
+                    V("refused-as-duplicate-but-not-stored/" + label, "event %s stored through worker %s and deleted by its author through worker %s was refused by worker %s as %r although no worker returns it"
+                      % (first["id"][:12], w1, w2, w1, again[3]))
+                if again and again[2] is True and not back:
+                    V("ok-true/not-retrievable/" + label, "event %s resubmitted to worker %s was acknowledged but is not returned by worker %s" % (first["id"][:12], w1, w2))
+            if label.startswith("superseded") and gone:
+                # an older version of a replaceable address: OK true (already superseded) or a refusal with a reason are both fine,
+                # "duplicate" is not - nothing with this id is stored
+                if again and again[2] is False and str(again[3]).startswith("duplicate"):
+                    V("refused-as-duplicate-but-not-stored/" + label, "the superseded version %s (removed through worker %s) was refused by worker %s as %r although it is in no store"
+                      % (first["id"][:12], w2, w1, again[3]))
     finally:
         for c in conns:
             await c.close()
